@@ -54,12 +54,8 @@ def run(ctx):
         for _ in range(3 if ctx.tier == "quick" else 10):
             cases.append(c + (",".join(str(ctx.rng.randint(0, 5)) for _ in range(n + 2)) or "-",))
     triples, skipped2, _ = exec_triples(impl, cases)
-    # known classes of C26 (decided by the Coq predicates through exec_ref) also label async disagreements
-    distinct = sorted({t[1].rsplit(" ", 1)[0] for t in triples})
-    refs = dict(zip(distinct, run_family(model, "exec_ref", distinct)))
-    cls_of_case = {t[2]: refs[t[1].rsplit(" ", 1)[0]].rsplit(" cls=", 1)[-1] for t in triples}
     rows = correspond_pairs(ctx, impl, model, "exec_async", triples, nontrivial=lambda rd, o: True,
-                            classify=lambda rd, i, m: None if cls_of_case.get(rd, "-") == "-" else cls_of_case[rd])
+                            classify=lambda rd, i, m: None)     # C26 has no known class any more
     # oracle: execute_sync on the same case (schedule dropped)
     sync_in = sorted({t[0].rsplit(" ", 1)[0] for t in triples})
     sync_out = dict(zip(sync_in, run_family(impl, "exec_sync", sync_in)))
